@@ -45,6 +45,8 @@ func main() {
 			wireCheck(c, "C11", true, nil)
 		case "C12":
 			checkC12(c)
+		case "C13":
+			checkC13(c)
 		case "C14":
 			checkC14(c)
 		case "C15":
